@@ -227,8 +227,10 @@ class Evaluator:
             except Exception:
                 pass
             return Unknown(key)
-        if isinstance(e, (ast.JoinedStr, ast.Lambda, ast.Dict, ast.ListComp,
-                          ast.GeneratorExp, ast.SetComp, ast.DictComp)):
+        if isinstance(e, (ast.ListComp, ast.GeneratorExp, ast.SetComp)):
+            return self.comprehension(e)
+        if isinstance(e, (ast.JoinedStr, ast.Lambda, ast.Dict,
+                          ast.DictComp)):
             return Obj('<' + type(e).__name__ + '>')
         if isinstance(e, ast.Subscript):
             base = self.ev(e.value)
@@ -250,6 +252,40 @@ class Evaluator:
         if isinstance(e, ast.Starred):
             return self.ev(e.value)
         raise NotEvaluable(f'expression form {type(e).__name__}: {key}')
+
+    def comprehension(self, e) -> Any:
+        """List/set/generator comprehension over concrete iterables,
+        evaluated eagerly to a tuple."""
+        out: List[Any] = []
+
+        def rec(i: int) -> None:
+            if i == len(e.generators):
+                out.append(self.ev(e.elt))
+                return
+            gen = e.generators[i]
+            it = self.ev(gen.iter)
+            if isinstance(it, frozenset):
+                it = tuple(sorted(it, key=repr))
+            if isinstance(it, (bytes, str)):
+                it = tuple(it[j:j + 1] for j in range(len(it)))
+            if not isinstance(it, (tuple, list)):
+                raise NotEvaluable('comprehension over ' + repr(it) + ': ' +
+                                   unparse(gen.iter))
+            for item in it:
+                self.assign(gen.target, item)
+                if all(self.truth(self.ev(c)) for c in gen.ifs):
+                    rec(i + 1)
+        saved = dict(self.env)
+        nstores = len(self.stores)
+        rec(0)
+        # comprehension variables do not leak
+        for kx in list(self.env):
+            if kx not in saved:
+                del self.env[kx]
+        for kx, vx in saved.items():
+            self.env[kx] = vx
+        del self.stores[nstores:]
+        return tuple(out)
 
     def compare(self, a: Any, op: ast.cmpop, b: Any, key: str) -> bool:
         if isinstance(op, (ast.Is, ast.IsNot)):
@@ -313,6 +349,24 @@ class Evaluator:
         if fname == 'len' and len(targs) == 1 and \
                 isinstance(targs[0], (tuple, bytes, str, frozenset)):
             return len(targs[0])
+        if fname in ('any', 'all') and len(targs) == 1 and \
+                isinstance(targs[0], (tuple, list, frozenset)):
+            self.calls.pop()
+            vals = [self.truth(x, fname) for x in targs[0]]
+            return any(vals) if fname == 'any' else all(vals)
+        if fname == 'bool' and len(targs) == 1 and \
+                not isinstance(targs[0], Unknown):
+            self.calls.pop()
+            return self.truth(targs[0])
+        if fname == 'cast' and len(targs) == 2:
+            self.calls.pop()
+            return targs[1]
+        if fname in ('set', 'list', 'tuple', 'frozenset') and \
+                len(targs) == 1 and isinstance(targs[0], (tuple, list,
+                                                          frozenset)):
+            self.calls.pop()
+            return tuple(targs[0]) if fname != 'set' and \
+                fname != 'frozenset' else frozenset(targs[0])
         if fname == 'isinstance':
             pass
         if self.on_call is not None:
